@@ -397,8 +397,15 @@ fn filter_dominance_named(cx: &mut Ctx, rule: &str) {
     }
 }
 
+pub fn kind_set_agreement_pub(cx: &mut Ctx, rule: &str) {
+    kind_set_agreement_named(cx, rule)
+}
+
 fn kind_set_agreement(cx: &mut Ctx) {
-    let rule = "C10.F3";
+    kind_set_agreement_named(cx, "C10.F3")
+}
+
+fn kind_set_agreement_named(cx: &mut Ctx, rule: &str) {
     cx.rule(rule, "three-way agreement on the feature-gated token kinds: variants gated in token.rs = kinds removed by every filter in parser.rs = kinds the soft-keyword start-of-line update passes through");
     cx.floor(rule, 3);
     let (tok, p, sk) = match (sm::load(&cx.repo, "parser/src/token.rs"), sm::load(&cx.repo, "parser/src/parser.rs"), sm::load(&cx.repo, "parser/src/soft_keywords.rs")) {
